@@ -197,8 +197,11 @@ CLAIMED = {
         "verdict. Aggregation: named-paths groups with failing members under all six run methods are validated by ArchiveTrace (member "
         "manifests' valid, the run manifest's all_valid and ResultsManager.is_valid(name) are the conjunction of the members' verdicts). "
         "fail_all(): groups whose members raise the cross-path signals are validated by the joint machine spec/GroupRun.tla (concrete members, "
-        "coordinator rules of the serial and line-major schedules); C04 judges validity per line, the final verdicts and all_valid.",
-        note="Trusted as C01. Error-policy 'fail' is covered by C05. The coordinator rules of GroupRun.tla mirror the code where the only documentation is a docstring (spec/CHOICES.md).",
+        "coordinator rules of the serial and line-major schedules); C04 judges validity per line, the final verdicts and all_valid. "
+        "Errors: the error handler is part of the run machine (Eval!Flush = ErrorPolicy!HandleN); generated programs with fail() and "
+        "error-provoking components under random policies and validation-mode overrides are judged on the verdict (False iff the effective "
+        "policy fails the file, and never True again).",
+        note="Trusted as C01. Everything else the error handler does is judged by C05. The coordinator rules of GroupRun.tla mirror the code where the only documentation is a docstring (spec/CHOICES.md).",
         technique="trace validation against the TLA+ run machine and the joint group machine; TLC action properties ValidityMonotone / GroupValidityMonotone; closed pool model-checked and replayed",
         ref="7 (C04)",
     ),
